@@ -321,6 +321,40 @@ def candidates(prog, ck, include_neq=False):
                         ('cmp', '==', x, ('rec', (('a', ('lit', 'c')), ('b', ('lit', 'c'))))),
                     ]), rng)
                 out.append(('rec_field_use', badfield))
+    # a bound variable passed to a column of another ground type (list of another
+    # element type, another atom ...): both types come from predicate signatures
+    cols = []
+    for pred, sg in sorted(ck.sig.items()):
+        if pred in prog.get('inj', {}):
+            continue
+        for f, t in sorted(sg.items(), key=lambda kv: str(kv[0])):
+            if typeref.ground(t):
+                cols.append((pred, f, render(t)))
+    for idx, r in enumerate(prog['rules']):
+        if not r['body']:
+            continue
+        sites, bodies = rule_sites(r)
+        for bpath, body in bodies:
+            by = vars_by_type(ck, body)
+            opts = []
+            for t, vs in sorted(by.items()):
+                for pred, f, ct in cols:
+                    if ct != t and pred != r['pred'] and \
+                            defined_before(prog, pred, r['pred']):
+                        same_kind = ct[:1] == t[:1] and t[:1] in '[{'
+                        opts.append((same_kind, vs, pred, f))
+            if opts:
+                def wrongcol(rng, idx=idx, bpath=bpath, pool=opts):
+                    _, vs, pred, f = rng.choice(pool)
+                    return add_literal(prog, idx, bpath,
+                                       ('call', pred, ((f, ('var', rng.choice(vs))),), ()),
+                                       rng)
+                out.append(('call_wrong_column', wrongcol))
+                pref = [o for o in opts if o[0]]
+                if pref:
+                    # list of T passed where a list of T' is expected (same for records)
+                    out.append(('call_same_kind_column',
+                                lambda rng, f=wrongcol, pref=pref: f(rng, pool=pref)))
     # one column of an extensional predicate retyped in every fact: the definition
     # stays consistent, the uses elsewhere clash
     facts = {}
@@ -352,6 +386,14 @@ def candidates(prog, ck, include_neq=False):
                 return p
             out.append(('retype_column', retype))
     return out
+
+
+def defined_before(prog, callee, caller):
+    """callee's rules do not (transitively) need caller: adding a call keeps the
+    program non-recursive."""
+    from lv.props import common
+    rules, seen = common.closure_rules(prog, callee)
+    return caller not in seen
 
 
 def retype_lit(h, mode):
